@@ -272,6 +272,7 @@ class Interp:
         self.reg.counter = 0
         self.call_depth = 0
         self.effects = []        # recorded effects (C20 call traces)
+        self.notes = {}          # per-path notes of models / loop cutting (attached to the PathResult)
 
     def module(self, relpath):
         if relpath not in self.modules:
@@ -378,6 +379,7 @@ class Interp:
                 pending.extend(self.new_alts)
                 continue
             res.effects = list(self.effects)
+            res.notes = dict(self.notes)
             results.append(res)
             pending.extend(self.new_alts)
         return results
